@@ -147,11 +147,20 @@ HASHES = [b"\x00" * 32, b"\xff" * 32, (N - 1).to_bytes(32, "big"), N.to_bytes(32
           b"", b"\x00", b"\x01" * 31, b"\x80" + b"\x00" * 32, b"\xff" * 64]
 
 
+# byte strings that LOOK like text: hex digests given as ASCII (64, 40, 32 characters), digits, base64-ish - a
+# function that guesses the encoding of its argument from its content goes wrong on exactly these
+TEXTLIKE = [b"0" * 64, b"f" * 64, b"5" * 64, b"0123456789abcdef" * 4, b"A" * 64, b"deadbeef" * 4, b"ab" * 20, b"12" * 16,
+            b"0x" + b"1f" * 31, b"1234567890" * 6]
+
+
 def s_case():
+    ascii_hex = st.tuples(st.sampled_from([64, 40, 32, 63, 62]), st.binary(min_size=32, max_size=32)).map(
+        lambda t: t[1].hex().encode()[:t[0]])
+    anylen = st.integers(0, 64).flatmap(lambda k: st.binary(min_size=k, max_size=k))
     return st.fixed_dictionaries({
         "d": scalar_in(1, N - 1, extra=(2, 3, N - 2)),
-        "h": st.one_of(st.sampled_from(HASHES), st.binary(min_size=32, max_size=32),
-                       st.binary(min_size=32, max_size=32), st.binary(max_size=64)).map(hx),
+        "h": st.one_of(st.sampled_from(HASHES), st.sampled_from(TEXTLIKE), ascii_hex, st.binary(min_size=32, max_size=32),
+                       st.binary(min_size=32, max_size=32), st.binary(max_size=64), anylen).map(hx),
     })
 
 
@@ -160,6 +169,7 @@ def t_sign(ctx, shard, n):
     if shard == 0:
         sat = hashlib.sha256(vectors.SECP_SATOSHI["msg"]).digest()
         ex = [{"d": d, "h": hx(h)} for d in (1, 2, N - 2, N - 1) for h in HASHES + [sat]]
+        ex += [{"d": 0xC0FFEE + i, "h": hx(h)} for i, h in enumerate(TEXTLIKE)]
     drive(ctx, f"sign{shard}", s_case(), lambda c: o_sign(ctx, c), n, ex)
 
 
